@@ -311,8 +311,8 @@ V("C12-default-cached", "C12", "callable default evaluated once and cached on th
   "        if callable(self._default):\n            self._default = self._default()\n        return self._default",
   expect_rule="default.per-access")
 V("C12-raw-default-read", "C12", "DictField.__setdefault__ reads _default (callable never evaluated)", DICT,
-  "        default = self.default\n        if isinstance(default, dict) and self._use_proxy:",
-  "        default = self._default\n        if isinstance(default, dict) and self._use_proxy:", expect_rule="default.raw-read")
+  "        default = self.default\n        if isinstance(default, dict):",
+  "        default = self._default\n        if isinstance(default, dict):", expect_rule="default.raw-read")
 V("C12-ctor-skips-empty-schema", "C12", "constructor skips defaults for some fields", CORE,
   "            if key in data:\n                continue\n\n            field.__setdefault__(self)",
   "            if key in data or isinstance(field, Schema) and not field._fields:\n                continue\n\n            field.__setdefault__(self)",
@@ -896,10 +896,11 @@ V("C17-benign-setitem-rewrite", "C17", "__setitem__ with early return instead of
 
 # ------------------------------------------------------------------------------------------ C13
 V("C13-list-default-shared", "C13", "untyped ListField stores the declared default object itself", LIST,
-  "            else:\n                default = list(default)\n        cfg._set_default_value(self._key, default)",
-  "        cfg._set_default_value(self._key, default)", expect_rule="default.fresh @ ListField.__setdefault__")
+  "            default = copy_basic_value(default)\n            if self.field:\n                default = ListProxy(cfg, self, default)\n",
+  "            if self.field:\n                default = ListProxy(cfg, self, copy_basic_value(default))\n", expect_rule="default.fresh @ ListField.__setdefault__")
 V("C13-dict-default-shared", "C13", "DictField without proxy stores the declared default object itself", DICT,
-  "        elif default is not None:\n            default = dict(default)\n", "", expect_rule="default.fresh @ DictField.__setdefault__")
+  "            default = copy_basic_value(default)\n            if self._use_proxy:\n                default = DictProxy(cfg, self, default)\n",
+  "            if self._use_proxy:\n                default = DictProxy(cfg, self, copy_basic_value(default))\n", expect_rule="default.fresh @ DictField.__setdefault__")
 V("C13-to_tree-no-copy", "C13", "to_tree merges dynamic fields into the schema's own table", CORE,
   "        fields: Dict[str, BaseField] = dict(self._schema._fields)", "        fields: Dict[str, BaseField] = self._schema._fields",
   expect_rule="schema-fields.single-owner")
@@ -1029,7 +1030,7 @@ V("C18-nested-first", "C18", "nested scopes processed before this scope's includ
     (CORE, """        for key, field in includes:
             # For each of the included field names, check if it has a value in the parsed tree""",
      """        for key, sub_schema in sub_schemas:
-            if tree.get(key):
+            if tree.get(key) and isinstance(tree[key], dict):
                 tree[key] = self._process_includes(
                     sub_schema, tree[key], format_factory
                 )
@@ -1039,7 +1040,8 @@ V("C18-nested-first", "C18", "nested scopes processed before this scope's includ
     (CORE, """            tree = field.include(self, formatter, filename, tree)
 
         for key, sub_schema in sub_schemas:
-            if tree.get(key):
+            # only a nested tree can hold includes, any other value is rejected when it is set
+            if tree.get(key) and isinstance(tree[key], dict):
                 tree[key] = self._process_includes(
                     sub_schema, tree[key], format_factory
                 )
@@ -1092,9 +1094,9 @@ V("BENIGN-format-ref-path", "C16", "ValidationError.ref_path uses %-formatting",
 V("BENIGN-stub-header-fstring", "C20", "class header rendered with an f-string", STUBS, expect="silent",
   old="            \"class %s(cincoconfig.core.ConfigType):\" % class_name,", new="            f\"class {class_name}(cincoconfig.core.ConfigType):\",")
 V("BENIGN-list-default-copy-method", "C13", "untyped list default copied with .copy()", LIST, expect="silent", check=["C13", "C12"],
-  old="                default = list(default)", new="                default = default.copy()")
+  old="            default = copy_basic_value(default)", new="            default = copy_basic_value(default).copy()")
 V("BENIGN-list-default-slice", "C13", "untyped list default copied with [:]", LIST, expect="silent", check=["C13", "C12"],
-  old="                default = list(default)", new="                default = default[:]")
+  old="            default = copy_basic_value(default)", new="            default = copy_basic_value(default)[:]")
 V("BENIGN-dict-default-unpack", "C13", "dict default copied with {**default}", DICT, expect="silent", check=["C13", "C12"],
   old="            default = dict(default)", new="            default = {**default}")
 V("BENIGN-keysize-constant", "C07", "key size hoisted into a module constant", ENC, expect="silent", check=["C07", "C08"], edits=[
@@ -1283,13 +1285,13 @@ VP("C12-R2C-mut-defined-wrong-owner", "C12", "is_value_defined (refactored) look
 VP("C12-R2C-mut-mark-only", "C12", "swapped _set_default_value marks but stores conditionally", "C12-R2C", CORE,
    "        self._default_value_keys.add(key)\n        self._data[key] = value", "        self._default_value_keys.add(key)\n        if value is not None:\n            self._data[key] = value")
 VP("C12-R2C-mut-ifexp-shares-default", "C12", "conditional-expression default shares the declared list when untyped", "C12-R2C", LIST,
-   "            default = ListProxy(cfg, self, default) if self.field else list(default)", "            default = ListProxy(cfg, self, default) if self.field else default")
+   "            default = ListProxy(cfg, self, copy_basic_value(default)) if self.field else list(copy_basic_value(default))", "            default = ListProxy(cfg, self, copy_basic_value(default)) if self.field else default")
 VP("C13-R2C-mut-dynamic-on-schema", "C13", "extracted _add_dynamic_field records the field on the schema", "C13-R2C", CORE,
    "        dynamic_field = self._fields[key] = AnyField()", "        dynamic_field = self._schema._fields[key] = AnyField()")
 VP("C13-R2C-mut-dict-default-shared", "C13", "guard-clause DictField default: raw dict stored for untyped fields", "C13-R2C", DICT,
-   "            value = dict(declared)", "            value = declared")
+   "            value = dict(copy_basic_value(declared))", "            value = declared")
 VP("C13-R2C-mut-list-default-shared", "C13", "extracted _default_for returns the declared list itself", "C13-R2C", LIST,
-   "            return list(declared)", "            return declared")
+   "            return list(copy_basic_value(declared))", "            return declared")
 VP("C13-R2C-mut-guard-inverted", "C13", "extracted _default_for: guard inverted (lists returned raw)", "C13-R2C", LIST,
    "        if not isinstance(declared, list):\n            return declared", "        if isinstance(declared, list):\n            return declared")
 VP("C14-R2C-mut-format-no-joiner", "C14", "%-formatted name without the '_' joiner", "C14-R2C", CORE,
@@ -1492,3 +1494,11 @@ V("C15-includes-recurse-into-non-mapping", "C15", "D22 re-opened: nested scopes 
   "            if tree.get(key) and isinstance(tree[key], dict):", "            if tree.get(key):")
 V("C15-set-value-loads-non-mapping", "C15", "a non-mapping value for a sub-configuration is handed to load_tree", CORE,
   "        elif isinstance(value, dict) and isinstance(field, (Schema, ConfigTypeField)):", "        elif isinstance(field, (Schema, ConfigTypeField)):")
+V("C13-list-default-shallow-again", "C13", "D23 re-opened: list default copied one level deep", "cincoconfig/fields/list_field.py",
+  "            default = copy_basic_value(default)\n", "            default = list(default)\n")
+V("C13-dict-default-shallow-again", "C13", "D23 re-opened: dict default copied with dict()", "cincoconfig/fields/dict_field.py",
+  "            default = copy_basic_value(default)\n", "            default = dict(default)\n")
+V("C13-deep-copier-keeps-dicts", "C13", "the deep copier no longer rebuilds nested dicts", CORE,
+  "    if isinstance(value, dict):\n        return {key: copy_basic_value(item) for key, item in value.items()}\n    return value", "    return value")
+V("C13-list-default-deepcopy", "C13", "copy.deepcopy instead of the package's copier", "cincoconfig/fields/list_field.py",
+  "            default = copy_basic_value(default)\n", "            import copy\n            default = copy.deepcopy(default)\n", expect="silent")
